@@ -258,7 +258,7 @@ def lean_obligations(pid, st, log, tier):
         log(f"lean build of {mods} known to fail for this tree (cached)")
     else:
         # a regenerated obligation that no longer holds can make `omega` diverge: a timeout counts as "not discharged"
-        rc, out, dt = sh(cmd, cwd=LEAN, timeout=900 if tier == "quick" else 2400)
+        rc, out, dt = sh(cmd, cwd=LEAN, timeout=900 if tier == "quick" else 4500)
         log(f"lake build {' '.join(mods)} rc={rc} {dt:.1f}s")
         st["lean"][key] = {"rc": rc, "out": out[-8000:]}
         save_state(st)
